@@ -38,7 +38,7 @@ def run(ctx):
     for rq, (t, r) in sorted(recs.items()):
         fields = [x['n'] for x in r['fields']]
         ccs = [f for f in prog.all_functions() if f.kind == 'ctor' and f.rec == rq and len(f.param_ids) == 1 and
-               f.tu.types[f.params[0]['t']]['c'].replace('const ', '').rstrip(' &') == rq]
+               f.tu.types[f.params[0]['t']].get('k') == 'ref' and f.tu.types[f.tu.types[f.params[0]['t']]['pointee']].get('rec') == rq]
         cps = [f for f in prog.all_functions() if f.rec == rq and f.qp == 'FIX8::Field::copy']
         if ccs:
             cc = ccs[0]
@@ -61,9 +61,9 @@ def run(ctx):
             ctx.saw(cp)
             news = [n for n in cp.all_nodes() if n.k == 'CXXNewExpr']
             ok = len(news) == 1 and news[0].child('init') is not None and any(x.k == 'CXXThisExpr' for x in news[0].child('init').walk()) and \
-                cp.tu.types[news[0].r['alloc']]['c'] == rq
+                cp.tu.types[news[0].r['alloc']].get('rec') == rq
             ctx.check(ok, 'R11.1', rq + '#copy()', cp.loc, 'copy() returns a new field copy-constructed from *this')
-    ctx.need(n_cc >= 8, 'fewer than 8 user-written Field copy constructors found (%d)' % n_cc)
+    ctx.need(n_cc >= 7, 'fewer than 7 user-written Field copy constructors found (%d)' % n_cc)
 
     # ---------------- R11.2 clone
     cl = prog.fn1('FIX8::Message::clone')
